@@ -19,9 +19,10 @@ func TestF25TraceListConjugateInvariant(t *testing.T) {
 	kgen := NewKeyGenerator(params)
 	sk := kgen.GenSecretKeyNew()
 
-	// the keys Trace(ct, 0) applies in this ring: 5^(2^i), 0 <= i < LogN-1
+	// the keys Trace(ct, 0) applies in this ring: 5^(2^i), 0 <= i < LogN (since finding F66: the
+	// conjugate-invariant trace needs the step 5^(2^(LogN-1)) too; it was i < LogN-1 when F25 was written)
 	var want []uint64
-	for i := 0; i < params.LogN()-1; i++ {
+	for i := 0; i < params.LogN(); i++ {
 		want = append(want, params.GaloisElement(1<<i))
 	}
 	evk := NewMemEvaluationKeySet(nil, kgen.GenGaloisKeysNew(want, sk)...)
